@@ -50,9 +50,10 @@ OPEN_STATEMENTS = [
     'N-particle vector), expectation_is_bilinear_pairing (phi(H) = c + sum D o1 + sum Gamma o2 for every linear functional), the '
     'term identities behind the particle-hole and two-hole maps, inverse pairs, and agreement of the two routes to the 1-hole-RDM. '
     'two_hole_map_correct / particle_hole_map_correct: the formulas of map_two_pdm_to_two_hole_dm / ..._particle_hole_dm hold for '
-    'the RDMs of every linear functional.  Not formalised: the identification of the Model entry functions over Gaussian '
-    'rationals with the K = Q(i) instance of these statements (same formulas, read side by side), and positivity / '
-    'N-representability of the inputs.',
+    'the RDMs of every linear functional, and the bridge model_*_is_* : the Model entry functions the driver executes (over GQ, '
+    'a commutative ring) applied to the RDMs of any GQ-linear functional on any GQ-algebra with the CAR return its 2-hole / '
+    'particle-hole RDM, contracted 1-RDM and expectation value.  Not formalised: a bridge for chemEntry / corrEntry (the '
+    'reindexing g[p,q,r,s] = h[p,r,s,q] of chemist_reorder_identity is stated in the docstring), N-representability of inputs.',
 ]
 
 # ----------------------------------------------------------------------------- dense reference algebra
